@@ -45,6 +45,23 @@ async def _quiet(*a, **kw):
     return None
 
 
+def _logged(fn):
+    import functools
+
+    @functools.wraps(fn)
+    async def wrapper(*a, **kw):
+        _log("decorator", a, kw)
+        return await fn(*a, **kw)
+    return wrapper
+
+
+@_logged
+async def decorated(*a, **kw):
+    """A worker behind a functools.wraps decorator (a dotted path names the decorated function, not the bare one)."""
+    _log("decorated", a, kw)
+    return None
+
+
 def plain(*a, **kw):
     """Not a coroutine function."""
     _log("plain", a, kw)
